@@ -186,8 +186,25 @@ Replayable == info.sep.kind # "recipe" \/ info.sep.refused \/ info.sep.generates
 \* exhaust its attempt budget on that call (probability <= MaxFailRate by design), which makes the value tape-dependent: not compared bitwise
 SepEntropyFixed == info.sep.kind # "recipe" \/ info.sep.refused \/ (info.sep.generates /\ info.sep.live = {})
 
+\* a call made concurrently with others (C14): only what it returned can be judged
+ConcWhys(c, lf) ==
+  LET res == lf.res
+      as == AtomsOf(res.toks)
+  IN
+  <<IF res.kind = "panic" THEN "P:C14:call-panicked-under-concurrency" ELSE "ok",
+    IF res.kind = "ok" /\ ~(/\ Len(as) = c.wl.len /\ Interleaved(res.toks, TRUE) /\ CapShapeOK(as)
+                            /\ (info.sep.canBeEmpty \/ Len(SepsOf(res.toks)) = c.wl.len - 1)
+                            /\ res.str = Concat(res.toks, 1))
+      THEN "P:C14:password-returned-under-concurrency-violates-its-recipe" ELSE "ok",
+    IF res.kind = "ok" /\ SepEntropyFixed /\ ~SameFloat(res.ent, c.ent) THEN "P:C14:password-returned-under-concurrency-does-not-carry-the-recipes-entropy" ELSE "ok",
+    IF res.kind = "entropy" /\ SepEntropyFixed /\ ~SameFloat(res.ent, c.ent) THEN "P:C14:Entropy()-under-concurrency-differs-from-the-recipes-entropy" ELSE "ok",
+    IF res.kind = "size" /\ res.str # <<2 * c.size>> THEN "P:C14:Size()-under-concurrency-differs" ELSE "ok",
+    IF res.kind = "err" THEN "P:C14:call-failed-under-concurrency" ELSE "ok"
+  >>
+
 LeafWhys(c, lf) ==
   IF lf.res.kind = "cut" THEN <<"ok">> ELSE
+  IF lf.conc = 1 THEN ConcWhys(c, lf) ELSE
   LET res == lf.res
       honourable == HasList(c) /\ c.size >= 1 /\ c.wl.len >= 1
       as == AtomsOf(res.toks)
